@@ -62,6 +62,28 @@ def module_schema(draw, names: Names, depth: int, max_depth: int, cfg: S.SchemaC
             inl = sub.inlined()
             enums += [e.name for e in inl.enums]
             structs += [s_.name for s_ in inl.structs]
+        elif k == 3 and depth < max_depth and draw(st.booleans()):
+            # mirrored sub-trees: two directories whose index files are byte-identical ("mod leaf;") while the
+            # leaf modules they import differ
+            leafname = draw(st.sampled_from(["leaf", "messages", "common"]))
+            idxname = draw(st.sampled_from(["index", "all", "main"]))
+            for _side in range(2):
+                d = names.fresh(draw, module_component)
+                leaf_decls: List[M.Decl] = []
+                le: List[str] = []
+                ls: List[str] = []
+                for _ in range(draw(st.integers(1, 2))):
+                    nm = names.fresh(draw, type_names)
+                    if draw(st.booleans()):
+                        leaf_decls.append(draw(S.enum_decl(nm, cfg.enum_max_bits)))
+                        le.append(nm)
+                    else:
+                        leaf_decls.append(draw(S.struct_decl(nm, cfg, le, ls)))
+                        ls.append(nm)
+                idx = M.Schema([M.Mod([leafname], M.Schema(leaf_decls))])
+                decls.append(M.Mod([d, idxname], idx))
+                enums += le
+                structs += ls
         elif k <= 4:
             nm = names.fresh(draw, type_names)
             decls.append(draw(S.enum_decl(nm, cfg.enum_max_bits)))
